@@ -221,6 +221,15 @@ func mutateView(r *Rng, v []*MNode, o TreeOpts) []*MNode {
 					c.Stat.Devmajor, c.Stat.Devminor = 0, 0
 					c.Kids = GenView(r, TreeOpts{MaxEntries: 3, MaxDepth: 1, Names: o.Names})
 				}
+			case x == 7 && (n.IsDir() || os.FileMode(n.Stat.Mode)&os.ModeType == 0):
+				// other xattrs, same identity key: a directory keeps them under the new ones
+				// (rewriteMetadata removes nothing), an unchanged file keeps exactly them
+				c.Stat.Xattrs = map[string][]byte{"user.old": []byte("o")}
+				if r.Bool() {
+					for k, v := range n.Stat.Xattrs {
+						c.Stat.Xattrs[k] = append([]byte("x"), v...)
+					}
+				}
 			case x == 6 && !n.IsDir():
 				c.Stat.Mode = uint32(os.ModeSymlink | 0777)
 				c.Stat.Linkname = "../outside"
